@@ -19,13 +19,18 @@ import (
 	"fmt"
 	"math/big"
 	"os"
+	"path/filepath"
 	"time"
 
 	"github.com/0xPolygon/cdk-contracts-tooling/contracts/pp/l2-sovereign-chain/erc20permitmock"
 	"github.com/0xPolygon/cdk-contracts-tooling/contracts/pp/l2-sovereign-chain/polygonzkevmbridgev2"
 	"github.com/0xPolygon/cdk-contracts-tooling/contracts/pp/l2-sovereign-chain/polygonzkevmglobalexitrootv2"
 	"github.com/agglayer/aggkit/bridgesync"
+	aggkitdb "github.com/agglayer/aggkit/db"
 	"github.com/agglayer/aggkit/test/contracts/transparentupgradableproxy"
+	"github.com/agglayer/aggkit/tree"
+	treemigrations "github.com/agglayer/aggkit/tree/migrations"
+	treetypes "github.com/agglayer/aggkit/tree/types"
 	"github.com/ethereum/go-ethereum/accounts/abi/bind"
 	"github.com/ethereum/go-ethereum/common"
 	"github.com/ethereum/go-ethereum/core/types"
@@ -103,6 +108,21 @@ type After struct {
 	Time     uint64 `json:"time"`
 }
 
+// one proof served by the real aggkit tree and judged by the real contract
+type VObs struct {
+	K        uint32   `json:"k"` // version: the tree / contract after k leaves
+	J        uint32   `json:"j"` // index proved
+	Leaf     string   `json:"leaf"`
+	Root     string   `json:"root"`  // tree.GetRootByIndex(k-1)
+	Proof    []string `json:"proof"` // tree.GetProof(j, root), 32 siblings
+	OK       bool     `json:"ok"`    // bridge.verifyMerkleProof(leaf, proof, j, root)
+	Calc     string   `json:"calc"`  // bridge.calculateRoot(leaf, proof, j)
+	TLevel   uint32   `json:"tlevel"`
+	TSibling string   `json:"tsibling"` // proof[tlevel] replaced by this value
+	TOK      bool     `json:"tok"`      // bridge.verifyMerkleProof on the tampered proof
+	Err      string   `json:"err,omitempty"`
+}
+
 type Step struct {
 	K      string `json:"k"`
 	Status int    `json:"status"` // 1 mined ok, 0 mined reverted, -1 not a transaction
@@ -112,6 +132,8 @@ type Step struct {
 	After  *After `json:"after,omitempty"` // nil when the next transaction went into the same block
 	Answer string `json:"answer,omitempty"`
 	Other  int    `json:"other_logs,omitempty"`
+	Verifs []VObs `json:"verifs,omitempty"`
+	NLeaf  int    `json:"nleaf,omitempty"` // bridge leaves appended to the aggkit tree at a verify step
 }
 
 type Env struct {
@@ -343,6 +365,71 @@ func (e *env) gerOfEvent(co *bind.CallOpts, m, r [32]byte) ([32]byte, bool) {
 	return g, true
 }
 
+// ---------- proofs served by the aggkit tree, judged by the contract ----------
+
+func (e *env) verify(leaves []common.Hash, vseed uint64, st *Step) {
+	st.NLeaf = len(leaves)
+	if len(leaves) == 0 {
+		return
+	}
+	dir, err := os.MkdirTemp("", "verif_evm_tree_")
+	must(err, "tempdir")
+	defer os.RemoveAll(dir)
+	dbPath := filepath.Join(dir, "tree.sqlite")
+	must(treemigrations.RunMigrations(dbPath), "tree migrations")
+	sdb, err := aggkitdb.NewSQLiteDB(dbPath)
+	must(err, "open tree db")
+	defer sdb.Close()
+	t := tree.NewAppendOnlyTree(sdb, "")
+	for i, l := range leaves {
+		tx, err := aggkitdb.NewTx(e.ctx, sdb)
+		must(err, "tx")
+		must(t.AddLeaf(tx, uint64(i+1), 0, treetypes.Leaf{Index: uint32(i), Hash: l}), "AddLeaf")
+		must(tx.Commit(), "commit")
+	}
+	r := hlib.NewRng(vseed)
+	n := uint32(len(leaves))
+	type kj struct{ k, j uint32 }
+	picks := []kj{{n, 0}, {n, n - 1}, {n, uint32(r.Intn(int(n)))}}
+	for i := 0; i < 3; i++ {
+		k := 1 + uint32(r.Intn(int(n)))
+		picks = append(picks, kj{k, uint32(r.Intn(int(k)))})
+	}
+	for _, p := range picks {
+		o := VObs{K: p.k, J: p.j, Leaf: hlib.Hex(leaves[p.j][:])}
+		root, err := t.GetRootByIndex(e.ctx, p.k-1)
+		if err != nil {
+			o.Err = "GetRootByIndex: " + err.Error()
+			st.Verifs = append(st.Verifs, o)
+			continue
+		}
+		o.Root = hlib.Hex(root.Hash[:])
+		proof, err := t.GetProof(e.ctx, p.j, root.Hash)
+		if err != nil {
+			o.Err = "GetProof: " + err.Error()
+			st.Verifs = append(st.Verifs, o)
+			continue
+		}
+		var sp [32][32]byte
+		for h := range proof {
+			sp[h] = proof[h]
+			o.Proof = append(o.Proof, hlib.Hex(proof[h][:]))
+		}
+		o.OK, err = e.bridge.VerifyMerkleProof(nil, leaves[p.j], sp, p.j, root.Hash)
+		must(err, "bridge.verifyMerkleProof")
+		c, err := e.bridge.CalculateRoot(nil, leaves[p.j], sp, p.j)
+		must(err, "bridge.calculateRoot")
+		o.Calc = h32(c)
+		o.TLevel = uint32(r.Intn(32))
+		tp := sp
+		tp[o.TLevel][31-r.Intn(32)] ^= byte(1 << uint(r.Intn(8)))
+		o.TSibling = hlib.Hex(tp[o.TLevel][:])
+		o.TOK, err = e.bridge.VerifyMerkleProof(nil, leaves[p.j], tp, p.j, root.Hash)
+		must(err, "bridge.verifyMerkleProof (tampered)")
+		st.Verifs = append(st.Verifs, o)
+	}
+}
+
 // ---------- running one case ----------
 
 func addr(s string) common.Address { return common.BytesToAddress(hlib.UnHex(s)) }
@@ -366,6 +453,7 @@ func runCase(in In) Out {
 	out.Init = e.after()
 	out.Steps = make([]Step, len(in.Ops))
 	var pend []pending
+	var leaves []common.Hash // bridge leaves in deposit order, as the repository hashes the decoded events
 	flush := func() {
 		if len(pend) == 0 {
 			return
@@ -377,6 +465,9 @@ func runCase(in In) Out {
 			st := &out.Steps[p.step]
 			st.Status = int(r.Status)
 			e.decode(r, st)
+			for _, b := range st.BEvs {
+				leaves = append(leaves, common.BytesToHash(hlib.UnHex(b.LeafRepo)))
+			}
 		}
 		a := e.after()
 		out.Steps[pend[len(pend)-1].step].After = &a
@@ -415,6 +506,10 @@ func runCase(in In) Out {
 			must(e.be.AdjustTime(time.Duration(op.Secs)*time.Second), "AdjustTime")
 			a := e.after()
 			st.After = &a
+			continue
+		case "verify":
+			flush()
+			e.verify(leaves, op.VSeed, st)
 			continue
 		case "leaf":
 			flush()
